@@ -620,27 +620,46 @@ Proof.
       unfold below. rewrite Ec, IH, Eo. reflexivity.
 Qed.
 
-Definition plain_req (r : req) : Prop := ctx_mark r = None /\ meth_mark r = None.
+Definition plain_req (r : req) : Prop := ctx_mark r = None /\ meth_mark r = None /\ fault_mark r = None.
 
 Lemma onion_tr_plain : forall lst r, plain_req r ->
   onion_tr layers lst r = (onion_trace layers lst r (ROk (r ++ [99%N])), ROk (r ++ [99%N])).
 Proof.
-  intros lst r [Hlive Hm]. unfold layers. cbn [onion_tr onion_trace cut]. rewrite Hlive.
-  unfold core_res, payload. rewrite Hm. unfold strip_ctx. rewrite Hlive.
+  intros lst r [Hlive [Hm Hf]]. unfold layers. cbn [onion_tr onion_trace cut]. rewrite Hf, Hlive.
+  unfold core_res, payload. rewrite Hm, Hf. unfold strip_meth. rewrite Hm. unfold strip_ctx. rewrite Hlive.
   cbn [back]. unfold exits_if. cbn [returns]. reflexivity.
 Qed.
 
-Lemma onion_tr_done : forall lst r m, ctx_mark r = Some m ->
+Lemma onion_tr_done : forall lst r m, fault_mark r = None -> ctx_mark r = Some m ->
   onion_tr layers lst r =
   (enters LCI (lst LCI) r ++ (enters LCO (lst LCO) r ++ [] ++ exits LCO (rev (lst LCO)) (RErr m))
       ++ exits LCI (rev (lst LCI)) (RErr m), RErr m).
 Proof.
-  intros lst r m Hdone. unfold layers. cbn [onion_tr cut]. rewrite Hdone.
+  intros lst r m Hf Hdone. unfold layers. cbn [onion_tr cut]. rewrite Hf, Hdone.
   cbn [back]. unfold exits_if. cbn [returns]. reflexivity.
 Qed.
 
 (* the method fails (returns an error / panics): what every layer sees coming back *)
-Lemma onion_tr_fails : forall lst r, ctx_mark r = None ->
+(* the innermost client layer fails (a transport fault): each client handler is entered exactly
+   once and what the transport answered travels back unchanged through every one of them: no
+   built-in layer retries the request or swallows the error *)
+Lemma back_errors : forall e,
+  back LCI (RErr e) = RErr e /\ back LSO (RErr e) = RErr e /\ back LSI (RErr e) = RErr e /\
+  back LCI RPanic = RPanic /\ (forall L t, back L (ROk t) = ROk t).
+Proof. intros e. repeat split. intros [| | |] t; reflexivity. Qed.
+
+Lemma onion_tr_fault : forall lst r f, fault_mark r = Some f ->
+  onion_tr layers lst r =
+  (enters LCI (lst LCI) r ++ (enters LCO (lst LCO) r ++ [] ++ exits_if LCO (lst LCO) (fault_res f))
+      ++ exits_if LCI (lst LCI) (fault_res f), fault_res f).
+Proof.
+  intros lst r f Hf. unfold layers. cbn [onion_tr cut]. rewrite Hf.
+  assert (Hb : back LCI (fault_res f) = fault_res f).
+  { unfold fault_res. repeat (match goal with |- context [if ?c then _ else _] => destruct c end); reflexivity. }
+  rewrite Hb. reflexivity.
+Qed.
+
+Lemma onion_tr_fails : forall lst r, ctx_mark r = None -> fault_mark r = None ->
   (meth_mark r = Some 8001%N ->
    onion_tr layers lst r =
    (enters LCI (lst LCI) r ++ (enters LCO (lst LCO) r ++ (enters LSO (lst LSO) r ++
@@ -656,7 +675,7 @@ Lemma onion_tr_fails : forall lst r, ctx_mark r = None ->
       ++ exits LCO (rev (lst LCO)) (RWire 78))
       ++ exits LCI (rev (lst LCI)) (RErr 78), RErr 78)).
 Proof.
-  intros lst r Hlive. split; intros Hm; unfold layers; cbn [onion_tr cut]; rewrite Hlive;
+  intros lst r Hlive Hf. split; intros Hm; unfold layers; cbn [onion_tr cut]; rewrite Hf, Hlive;
     unfold core_res; rewrite Hm; cbn [N.eqb Pos.eqb back]; unfold exits_if; cbn [returns]; reflexivity.
 Qed.
 
@@ -1129,7 +1148,8 @@ Proof.
 Qed.
 
 (* system level: context already done, pass-through handlers *)
-Lemma trace_done : forall pool, guard pool -> pool_plain pool -> forall ops r m, ctx_mark r = Some m ->
+Lemma trace_done : forall pool, guard pool -> pool_plain pool -> forall ops r m,
+  fault_mark r = None -> ctx_mark r = Some m ->
   let s := snd (run pool ops sys_init) in
   let t := snd (spec_run pool ops ssys_init) in
   call pool r s =
@@ -1137,11 +1157,23 @@ Lemma trace_done : forall pool, guard pool -> pool_plain pool -> forall ops r m,
       (enters LCO (spec_list LCO t) r ++ [] ++ exits LCO (rev (spec_list LCO t)) (RErr m)) ++
       exits LCI (rev (spec_list LCI t)) (RErr m), RErr m).
 Proof.
-  intros pool G P ops r m Hdone s t. subst s t.
-  rewrite (call_plain_any pool G P ops r), (onion_tr_done _ r m Hdone). reflexivity.
+  intros pool G P ops r m Hf Hdone s t. subst s t.
+  rewrite (call_plain_any pool G P ops r), (onion_tr_done _ r m Hf Hdone). reflexivity.
+Qed.
+
+Lemma trace_fault : forall pool, guard pool -> pool_plain pool -> forall ops r f, fault_mark r = Some f ->
+  let s := snd (run pool ops sys_init) in
+  let lst := fun L => spec_list L (snd (spec_run pool ops ssys_init)) in
+  call pool r s =
+  (s, enters LCI (lst LCI) r ++ (enters LCO (lst LCO) r ++ [] ++ exits_if LCO (lst LCO) (fault_res f))
+      ++ exits_if LCI (lst LCI) (fault_res f), fault_res f).
+Proof.
+  intros pool G P ops r f Hf s lst. subst s lst.
+  rewrite (call_plain_any pool G P ops r), (onion_tr_fault _ r f Hf). reflexivity.
 Qed.
 
 Lemma trace_fails : forall pool, guard pool -> pool_plain pool -> forall ops r, ctx_mark r = None ->
+  fault_mark r = None ->
   let s := snd (run pool ops sys_init) in
   let lst := fun L => spec_list L (snd (spec_run pool ops ssys_init)) in
   (meth_mark r = Some 8001%N ->
@@ -1159,8 +1191,8 @@ Lemma trace_fails : forall pool, guard pool -> pool_plain pool -> forall ops r, 
       ++ exits LCO (rev (lst LCO)) (RWire 78))
       ++ exits LCI (rev (lst LCI)) (RErr 78), RErr 78)).
 Proof.
-  intros pool G P ops r Hlive s lst. subst s lst.
-  destruct (onion_tr_fails (fun L => spec_list L (snd (spec_run pool ops ssys_init))) r Hlive) as [H1 H2].
+  intros pool G P ops r Hlive Hf s lst. subst s lst.
+  destruct (onion_tr_fails (fun L => spec_list L (snd (spec_run pool ops ssys_init))) r Hlive Hf) as [H1 H2].
   split; intros Hm; rewrite (call_plain_any pool G P ops r); [rewrite (H1 Hm) | rewrite (H2 Hm)]; reflexivity.
 Qed.
 
